@@ -133,6 +133,9 @@ def tilewalker_cleanup(task, dry_run, concurrency, skip_geoms_for_last_levels,
         handle_all = True
     else:
         task.tile_manager._expire_timestamp = task.remove_timestamp
+        # the remove_before of the task decides what is removed, not the
+        # refresh_before the cache is served with
+        task.tile_manager._refresh_before = {}
         handle_all = False
 
     task.tile_manager.minimize_meta_requests = False
